@@ -21,8 +21,8 @@ def rand_cfg(rnd, idx):
     mt = rnd.choice(list(BURST))
     nph = rnd.choice(NPH[mt]) if rnd.random() < 0.8 else rnd.choice([1, 2, 4])
     # wide columns: colbits=12 gives 12 address lines (A11 exists) with a small row count, so the arrays stay small
-    colbits = 12 if idx % 8 == 7 else (rnd.choice([4, 5]) if BURST[mt] * nph <= 2 else rnd.choice([5, 6, 7]))
-    rowbits = rnd.choice([4, 5]) if colbits > 10 else 11       # the model indexes address[10]: >= 11 address lines
+    colbits = 12 if idx % 8 == 7 else rnd.choice([5, 6, 7])
+    rowbits = rnd.choice([3, 4, 5])     # small arrays (Migen lowers memories to signal arrays); address lines forced to >= 11 below
     return dict(memtype=mt, nphases=nph, bankbits=1 if colbits > 10 else rnd.choice([1, 2, 3]), rowbits=rowbits, colbits=colbits, burst=BURST[mt],
                 phase_bits=rnd.choice([8, 16, 32]) * BURST[mt], wl=rnd.choice([0, 0, 1, 2, 3]), rl=rnd.choice([1, 2, 4, 6]),
                 we_gran=rnd.choice([8, 8, 0]), mapping=rnd.choice(["ROW_BANK_COL", "BANK_ROW_COL"]),
@@ -121,9 +121,10 @@ def job(args):
 
     class M: pass
     mod = M(); mod.memtype = cfg["memtype"]; mod.geom_settings = GeomSettings(cfg["bankbits"], cfg["rowbits"], cfg["colbits"])
+    mod.geom_settings.addressbits = max(11, cfg["colbits"])      # the model indexes address[10]; colbits=12 needs A11
     init = [rnd.getrandbits(32) for _ in range(cfg["ninit"])]
     dut = SDRAMPHYModel(mod, settings=ps, we_granularity=cfg["we_gran"], init=list(init), address_mapping=cfg["mapping"])
-    ncyc = 200 if tier == "quick" else 1200
+    ncyc = 300 if tier == "quick" else 1500
     tr = gen_trace(rnd, cfg, ncyc)
     obs = []
     final = {}
@@ -228,7 +229,7 @@ def job(args):
 
 
 def run(tier, seed):
-    n = 16 if tier == "quick" else 320
+    n = 32 if tier == "quick" else 320
     res = Result()
     for r in core.pmap(job, [(i, tier, seed) for i in range(n)]):
         res.merge(r)
